@@ -57,6 +57,8 @@ def is_deepcopy(v):
 
 
 def run(repo, rep, tier):
+    from .c12 import namespace_validated_first
+    namespace_validated_first(repo, rep, 'C10.R12', lambda n: n in ('EnumerateInstances', 'EnumerateInstanceNames'))
     r1 = rep.rule('C10.R1', 'stores copy on the way in')
     r2 = rep.rule('C10.R2', 'stores copy on the way out')
     r3 = rep.rule('C10.R3', 'borrowed references are only read')
